@@ -65,6 +65,7 @@ type Contract struct {
 	Behs     []*Behaviour
 	Props    []string // property ids this contract serves
 	Keeps    []string // ghost states assumed untouched by opaque callees
+	Uses     []string // manual lemmas this unit may use
 }
 
 type SpecFunc struct {
@@ -84,6 +85,7 @@ type SpecFunc struct {
 type Axiom struct {
 	Name  string
 	Expr  *SExpr
+	Manual bool  // only used by units that name it in a `uses` clause
 	Lemma bool   // must be proved (obligation) before use
 	By    string // "induction on k" etc.
 	Pkg   string
@@ -99,7 +101,7 @@ type SpecFile struct {
 	Axioms    []*Axiom
 }
 
-var kwRe = regexp.MustCompile(`^(keeps|macro|ghost|func|requires|ensures|assigns|invariant|loop|behaviour|behavior|spec|axiom|lemma|decreases|inline|trusted|overflow|nopanic|props|panics|assert|rec)\b`)
+var kwRe = regexp.MustCompile(`^(uses|manual|keeps|macro|ghost|func|requires|ensures|assigns|invariant|loop|behaviour|behavior|spec|axiom|lemma|decreases|inline|trusted|overflow|nopanic|props|panics|assert|rec)\b`)
 
 var sigRe = regexp.MustCompile(`^(\w+)\s*\(([^)]*)\)\s*(\S+)?\s*(?:=\s*(.*))?$`)
 
@@ -326,7 +328,19 @@ func ParseSpecFile(path, pkg string) (*SpecFile, error) {
 			}
 			sf.Specs = append(sf.Specs, &SpecFunc{Name: m[1], Params: ps, Ret: m[3], Pkg: pkg, File: path, Line: it.no, Text: rest, Ghost: true})
 			cur = nil
-		case "axiom", "lemma":
+		case "uses":
+			if cur != nil {
+				for _, g := range splitTop(rest) {
+					cur.Uses = append(cur.Uses, strings.TrimSpace(g))
+				}
+			}
+		case "axiom", "lemma", "manual":
+			manual := false
+			if kw == "manual" {
+				manual = true
+				rest = strings.TrimSpace(strings.TrimPrefix(rest, "lemma"))
+				kw = "lemma"
+			}
 			i := strings.Index(rest, ":")
 			if i < 0 {
 				return nil, fail("axiom needs 'name:'")
@@ -342,7 +356,7 @@ func ParseSpecFile(path, pkg string) (*SpecFile, error) {
 			if err != nil {
 				return nil, fail("%v", err)
 			}
-			sf.Axioms = append(sf.Axioms, &Axiom{Name: name, Expr: e, Lemma: kw == "lemma", By: by, Pkg: pkg, File: path, Line: it.no, Text: body})
+			sf.Axioms = append(sf.Axioms, &Axiom{Name: name, Expr: e, Lemma: kw == "lemma", By: by, Pkg: pkg, File: path, Line: it.no, Text: body, Manual: manual})
 			cur = nil
 		case "assert":
 			if err := needBeh(); err != nil {
